@@ -128,7 +128,7 @@ func main() {
 		// Write to a temporary file first to make sure a failing write doesn't leave a partial (or destroy an existing) output file.
 		// The temporary file is always a new file, no existing file (e.g. the input) is used for it.
 		for i := 0; ; i++ {
-			temp = fmt.Sprintf("%s.%d.tmp", target, i)
+			temp = filepath.Join(options.out, fmt.Sprintf(".tsh.%d.tmp", i)) // A short name of its own, the output's name might already be as long as the file system permits.
 			tempFile, err = os.OpenFile(temp, os.O_WRONLY|os.O_CREATE|os.O_EXCL, 0777)
 
 			if !os.IsExist(err) {
